@@ -72,7 +72,7 @@ def make_spec(seed, rng, k=None, mode=None, N=None, v=None):
         for lf in sorted(sel):
             if rng.random() < 0.6:
                 plan.append({'site': 'channel', 'ident': lf, 'a': 'stall',
-                             'pos': rng.randint(0, 40), 'dt': rng.choice([0.005, 0.5, 30.0])})
+                             'pos': rng.randint(0, 40), 'dt': rng.choice([0.005, 0.5, 20.0])})
     knobs = {'pipe_capacity': rng.choice([16, 64, 512, 65536])}
     return {'property': ID, 'seed': seed, 'world': world, 'plan': _ws.order_plan(plan),
             'opt': opt, 'sched': sched, 'knobs': knobs, 'mode': mode}
